@@ -132,6 +132,7 @@ def multi(case):
 def handle(case):
     if "template" in case:
         return multi(case)
+    SymbolGraph().clear()        # inferred instances of earlier cases must not be candidates for `let(T0, None)`
     k = case["k"]
     elems = [X(*[bool(v[i]) if i < k else False for i in range(4)]) for v in itertools.product((0, 1), repeat=k)]
     order = case.get("order", 0)
@@ -151,9 +152,16 @@ def handle(case):
 
     out = {}
     try:
-        with q:
-            Add(v, inference(T[0])(p=x))
-            emit(case["prog"])
+        if case.get("base_last"):
+            # the rule written in two steps: first the branches, later (a second `with query:`) the base conclusion
+            with q:
+                emit(case["prog"])
+            with q:
+                Add(v, inference(T[0])(p=x))
+        else:
+            with q:
+                Add(v, inference(T[0])(p=x))
+                emit(case["prog"])
         res = {}
         nones = 0
         for r in q.evaluate():
